@@ -69,6 +69,32 @@ func (ld *Loaded) globalObj(x *Exec, g *ssa.Global, st *State) *Object {
 		st.h[o] = x.symV(et, "global_"+g.Name(), st.h)
 		return o
 	}
+	// a zero-size variable of a library package (encoding/binary.LittleEndian …)
+	// has only one value
+	if et := g.Type().Underlying().(*types.Pointer).Elem(); isZeroSize(et) {
+		if x.globals == nil {
+			x.globals = map[*ssa.Global]*Object{}
+		}
+		o := x.newObj("global:"+g.String(), et)
+		x.globals[g] = o
+		st.h[o] = x.zeroV(et)
+		return o
+	}
 	unsupported("package-level variable %s of a package that was not initialised by the driver", g.String())
 	return nil
+}
+
+func isZeroSize(t types.Type) bool {
+	switch u := t.Underlying().(type) {
+	case *types.Struct:
+		for i := 0; i < u.NumFields(); i++ {
+			if !isZeroSize(u.Field(i).Type()) {
+				return false
+			}
+		}
+		return true
+	case *types.Array:
+		return u.Len() == 0 || isZeroSize(u.Elem())
+	}
+	return false
 }
